@@ -9,6 +9,7 @@ namespace Rbgp.Rib
 structure AllSound : Prop where
   step : StepSound (fun _ => True)
   entry : EntrySound (fun _ => True)
+  exact : ExactSound (fun _ => True)
 
 theorem runFrom_nil (p : Profile) (t : Table) : runFrom p t [] = ([], false) := rfl
 
@@ -23,9 +24,10 @@ theorem run_step (hS : AllSound) {c : Case} {g : Nat → Fam} (p : Profile) {t :
     (hop : op.WF c g) (hinv : Inv c g t) :
     ∃ t' r, t.step p op = .ok (t', r) ∧
       runFrom p t (op :: ops) = ((t', r) :: (runFrom p t' ops).1, (runFrom p t' ops).2) ∧
-      Inv c g t' ∧ StepFacts t op t' r ∧ EntryFacts t op t' r := by
+      Inv c g t' ∧ StepFacts t op t' r ∧ EntryFacts t op t' r ∧ EntryExact t op t' r := by
   obtain ⟨t', r, hstep, hinv', hfacts⟩ := hS.step c g p t op trivial hop hinv
-  exact ⟨t', r, hstep, runFrom_cons_ok ops hstep, hinv', hfacts, hS.entry c g p t op t' r trivial hop hinv hstep⟩
+  exact ⟨t', r, hstep, runFrom_cons_ok ops hstep, hinv', hfacts, hS.entry c g p t op t' r trivial hop hinv hstep,
+    hS.exact c g p t op t' r trivial hop hinv hstep⟩
 
 /-- the empty table satisfies the invariant -/
 theorem inv_empty (c : Case) (g : Nat → Fam) : Inv c g {} where
@@ -42,7 +44,7 @@ theorem runFrom_no_panic (hS : AllSound) {c : Case} {g : Nat → Fam} (p : Profi
   induction ops generalizing t with
   | nil => rfl
   | cons op ops ih =>
-    obtain ⟨t', r, _, hrun, hinv', _, _⟩ := run_step hS p ops (hops op List.mem_cons_self) hinv
+    obtain ⟨t', r, _, hrun, hinv', _, _, _⟩ := run_step hS p ops (hops op List.mem_cons_self) hinv
     rw [hrun]
     exact ih (fun o ho => hops o (List.mem_cons_of_mem _ ho)) t' hinv'
 
@@ -53,7 +55,7 @@ theorem runFrom_inv (hS : AllSound) {c : Case} {g : Nat → Fam} (p : Profile) (
   induction ops generalizing t with
   | nil => simp [runFrom]
   | cons op ops ih =>
-    obtain ⟨t', r, _, hrun, hinv', _, _⟩ := run_step hS p ops (hops op List.mem_cons_self) hinv
+    obtain ⟨t', r, _, hrun, hinv', _, _, _⟩ := run_step hS p ops (hops op List.mem_cons_self) hinv
     rw [hrun]
     intro tr htr
     rcases List.mem_cons.mp htr with rfl | htr
